@@ -91,6 +91,11 @@ Theorem C08_j2k_main_header_no_panic_with_length_checks : forall d, bytes d ->
 Proof. exact k_main_header_no_panic. Qed.
 Print Assumptions C08_j2k_main_header_no_panic_with_length_checks.
 
+Theorem C08_j2k_tile_part_no_panic_with_length_checks : forall cs d o, bytes d -> 0 <= o ->
+  fst (k_parse_tile true (fuel_of d) cs d o) <> Panic.
+Proof. exact k_parse_tile_no_panic. Qed.
+Print Assumptions C08_j2k_tile_part_no_panic_with_length_checks.
+
 Theorem C08_j2k_parse_qcd_panics_as_is : exists d, bytes d /\ fst (k_main_header false (fuel_of d) d) = Panic.
 Proof. exact k_parse_qcd_panics_refuted. Qed.
 Print Assumptions C08_j2k_parse_qcd_panics_as_is.
@@ -118,3 +123,12 @@ Proof.
   split; [unfold bytes, k_siz_1x1; cbn [app]; repeat constructor; lia|].
   eexists; eexists. vm_compute. split; [reflexivity|split; reflexivity].
 Qed.
+
+Example C08_nonvacuous_j2k_tile :
+  bytes [255;144;0;10;0;0;0;0;0;0;0;1;255;147;1;2;3;255;217] /\
+  fst (k_parse_tile true 30 1 [255;144;0;10;0;0;0;0;0;0;0;1;255;147;1;2;3;255;217] 0) = Ok (0, 17).
+Proof. split; [unfold bytes; repeat constructor; lia|vm_compute; reflexivity]. Qed.
+
+Example C08_nonvacuous_jpeg_baseline :
+  bytes bl_td_witness /\ exists r, fst (bl_decode true (fuel_of bl_td_witness) bl_td_witness) = r /\ r = Err.
+Proof. split; [unfold bytes, bl_td_witness; repeat constructor; lia|]. eexists. split; [reflexivity|vm_compute; reflexivity]. Qed.
